@@ -29,6 +29,7 @@ import NibiruModel.GethSpec
 import NibiruModel.StateDB
 import NibiruProofs.SDBRevert
 import NibiruProofs.SDBSim
+import Generated.Facts
 
 namespace Nibiru.GethSpec
 open Nibiru
@@ -325,5 +326,70 @@ theorem C03_reverted_frame_simulates_reference_partial {A : List Nat} (s : S) (g
     rw [← e]; exact toSpec_plain w
   obtain ⟨r1, r2, r3, _⟩ := GethSpec.C03_spec_revert_restores g hg (ws.map toSpec) hp
   exact ⟨s3, h3, r1, sim_congr_ref s3 g _ r3 r2 hs⟩
+
+/-! ### T1 (regenerated from x/evm/statedb/journal.go, statedb.go, state_object.go on every run) -/
+
+/-- the Go type each constructor of the model's `Entry` stands for -/
+def Entry.goType : Entry → String
+  | .createObject _ => "createObjectChange"
+  | .resetObject _ _ => "resetObjectChange"
+  | .suicide _ _ _ => "suicideChange"
+  | .balance _ _ => "balanceChange"
+  | .nonce _ _ => "nonceChange"
+  | .code _ _ => "codeChange"
+  | .storage _ _ _ => "storageChange"
+  | .refund _ => "refundChange"
+  | .addLog => "addLogChange"
+  | .alAddr _ => "accessListAddAccountChange"
+  | .alSlot _ _ => "accessListAddSlotChange"
+  | .precompile _ => "PrecompileCalled"
+
+/-- one sample per constructor, in the order of the declarations in journal.go -/
+def entrySamples : List Entry :=
+  [.createObject 0, .resetObject 0 {}, .suicide 0 false 0, .balance 0 0, .nonce 0 0, .code 0 0, .storage 0 0 0, .refund 0, .addLog,
+   .alAddr 0, .alSlot 0 0, .precompile {}]
+
+/-- journal.go declares exactly the JournalChange types the model has constructors for, in this order, and each type's `Dirtied()`
+    returns its account exactly where the model's `Entry.dirtied` does (COMPUTED from the model, not restated) -/
+theorem fact_C03_journal_entry_types_match_model :
+    Generated.journalEntryTypes.map (fun r => (r.1, r.2.1)) =
+      entrySamples.map (fun e => (e.goType, if e.dirtied.isSome then "return:ch.account" else "return:nil")) := by decide
+
+/-- the skeleton of every `Revert` (calls, assigned fields, conditions, in source order) is the one `revertEntry` was written from:
+    createObject deletes the state object; resetObject puts the previous object back; suicide / balance / nonce / code / storage go
+    through `getStateObject` and restore the journaled previous value (suicide: only when the object exists); refund and logs
+    restore the counter; the access-list entries delete what was added; PrecompileCalled swaps the cache context for the snapshot -/
+theorem fact_C03_journal_revert_skeletons :
+    Generated.journalEntryTypes.map (fun r => r.2.2) =
+      ["call:delete",
+       "call:s.setStateObject",
+       "assign:obj ; call:s.getStateObject ; if:obj != nil ; assign:obj.Suicided ; call:obj.setBalance",
+       "call:s.getStateObject(*ch.account).setBalance ; call:s.getStateObject",
+       "call:s.getStateObject(*ch.account).setNonce ; call:s.getStateObject",
+       "call:s.getStateObject(*ch.account).setCode ; call:s.getStateObject ; call:common.BytesToHash",
+       "call:s.getStateObject(*ch.account).setState ; call:s.getStateObject",
+       "assign:s.refund",
+       "assign:s.logs ; call:len",
+       "call:s.accessList.DeleteAddress",
+       "call:s.accessList.DeleteSlot",
+       "assign:s.cacheCtx ; call:s.cacheCtx.WithMultiStore ; assign:s.writeToCommitCtxFromCacheCtx ; call:s.evmTxCtx.EventManager().EmitEvents ; call:s.evmTxCtx.EventManager ; call:ch.MultiStore.Write"] := by
+  decide +kernel
+
+/-- which mutation appends which entry, and that the entry is appended BEFORE the field is assigned (the journaled value is the
+    previous one): the write calls of the model were written from exactly these sites -/
+theorem fact_C03_journal_append_sites :
+    Generated.journalAppendSites =
+      ["StateDB.AddAddressToAccessList = append:accessListAddAccountChange",
+       "StateDB.AddLog = append:addLogChange ; assign:log.TxHash ; assign:log.BlockHash ; assign:log.TxIndex ; assign:log.Index ; assign:s.logs",
+       "StateDB.AddRefund = append:refundChange ; assign:s.refund",
+       "StateDB.AddSlotToAccessList = append:accessListAddAccountChange ; append:accessListAddSlotChange",
+       "StateDB.SavePrecompileCalledJournalChange = append:journalChange",
+       "StateDB.SubRefund = append:refundChange ; assign:s.refund",
+       "StateDB.Suicide = append:suicideChange ; assign:stateObject.Suicided ; assign:stateObject.account.BalanceWei",
+       "StateDB.createObject = append:createObjectChange ; append:resetObjectChange",
+       "stateObject.SetBalance = append:balanceChange",
+       "stateObject.SetCode = append:codeChange",
+       "stateObject.SetNonce = append:nonceChange",
+       "stateObject.SetState = append:storageChange"] := by decide +kernel
 
 end Nibiru.SDB
